@@ -10,11 +10,11 @@ Print Assumptions T05_precedence.
 
 (* The PAC result is translated by the statement's table, for EVERY return string: first entry only; empty /
    DIRECT / unrecognised keyword = direct; PROXY,HTTP = http proxy; HTTPS = TLS proxy; SOCKS5 = socks5 proxy;
-   SOCKS,SOCKS4 (recognised, unsupported) = fail; host:port that cannot be parsed or whose port is not a port
-   number = fail; script error = fail. *)
+   SOCKS,SOCKS4 (recognised, unsupported) = fail; host:port that cannot be parsed, whose host is empty or
+   contains a blank / control byte, or whose port is not a port number = fail; script error = fail. *)
 Theorem T05_pac_first_entry : forall r, pac_proxy r = hop_presult (spec_pac r).
 Proof. exact (pac_proxy_is_spec ob_mode_consts ob_mode_strings ob_parse_mode_arms ob_parse_mode_default
-               ob_parse_proxy_shape ob_parse_proxy_validates_port ob_first_shape ob_url_shape ob_pac_unsupported). Qed.
+               ob_parse_proxy_shape ob_parse_proxy_validates_port ob_parse_proxy_validates_host ob_first_shape ob_url_shape ob_pac_unsupported). Qed.
 Print Assumptions T05_pac_first_entry.
 
 (* --connect-to: the redirect is "first matching rule" (find), for every rule list and every address ... *)
